@@ -539,26 +539,56 @@ def rule_record(rep: Report, cu: CUnit, repo: Repo) -> None:
                     cu.src_of(x) == 'ring_writes++' for x in walk(cu.parent(n) or n))
     rep.check(ring_idx == '(ring_writes)%(last_ops_length)' and inc, 'C07.RECORD', 'ring-write', f'slot {ring_idx}, inc={inc}',
               cu.site(cu.func('run_paged_loop_impl')), expected='ring[writes % length] = ip; writes++')
+    # the emitter: the function (outside the run loops) that READS the ring into the python list
+    emitters = []
+    for fname in cu.funcs:
+        if fname in ('run_paged_loop_impl', 'run_flat_loop_impl', 'run_measured_loop'):
+            continue
+        for x in walk(cu.body(fname)):
+            if x.get('kind') == 'ArraySubscriptExpr' and cu.src_of(x['inner'][0]) == 'last_ops_ring':
+                par = cu.parent(x)
+                while isinstance(par, dict) and par.get('kind') in ('ImplicitCastExpr', 'ParenExpr'):
+                    par = cu.parent(par)
+                if not (isinstance(par, dict) and is_assign(par) and strip(par['inner'][0]) is x):
+                    emitters.append(fname)
+    emitters = sorted(set(emitters))
+    if len(emitters) != 1:
+        raise AnalysisError(f'C07.RECORD: expected exactly one function that reads last_ops_ring into the result, found {emitters}')
+    emit = emitters[0]
     defs = {}
-    for n in walk(cu.body('build_run_result')):
+    for n in walk(cu.body(emit)):
         if n.get('kind') == 'VarDecl' and n.get('inner'):
             init = [c for c in n['inner'] if isinstance(c, dict) and c.get('kind')]
             if init:
                 defs[n['name']] = lx.canon(c_ir(init[-1], cu.src_of), env)
     rep.check(defs.get('total') == '((ring_writes < last_ops_length)?ring_writes:last_ops_length)', 'C07.RECORD', 'emit:total',
-              str(defs.get('total')), cu.site(cu.func('build_run_result')), expected='min(writes, length)')
+              str(defs.get('total')), cu.site(cu.func(emit)), expected='min(writes, length)')
     rep.check(defs.get('start') == '(last_ops_length + ring_pos - total)%(last_ops_length)'
               and defs.get('ring_pos') == '(ring_writes)%(last_ops_length)', 'C07.RECORD', 'emit:start',
-              f'start={defs.get("start")} ring_pos={defs.get("ring_pos")}', cu.site(cu.func('build_run_result')),
+              f'start={defs.get("start")} ring_pos={defs.get("ring_pos")}', cu.site(cu.func(emit)),
               expected='(pos + length - total) % length')
-    elem = [lx.canon(c_ir(x['inner'][1], cu.src_of), env) for x in walk(cu.body('build_run_result'))
+    elem = [lx.canon(c_ir(x['inner'][1], cu.src_of), env) for x in walk(cu.body(emit))
             if x.get('kind') == 'ArraySubscriptExpr' and cu.src_of(x['inner'][0]) == 'last_ops_ring']
     rep.check(elem == ['(i + start)%(last_ops_length)'], 'C07.RECORD', 'emit:order', str(elem),
-              cu.site(cu.func('build_run_result')), expected='ring[(start + i) % length] for i ascending')
+              cu.site(cu.func(emit)), expected='ring[(start + i) % length] for i ascending')
+    # _run_native: the deque is extended once per exit path, in order: from the returned list on the normal path, and (if the
+    # exception path reports the list at all) from the engine's kept copy inside a handler that re-raises
     fn = repo.func(RUN_REL, '_run_native')
-    ext = [norm(c) for c in ast.walk(fn) if isinstance(c, ast.Call) and dotted(c.func) == 'last_ops.extend']
-    rep.check(ext == ['last_ops.extend(native_last_ops)'], 'C07.RECORD', '_run_native:extend', str(ext),
-              f'{RUN_REL}:{fn.lineno} _run_native')
+    ext_ok, ext_seen = True, []
+    for c in ast.walk(fn):
+        if isinstance(c, ast.Call) and dotted(c.func) == 'last_ops.extend':
+            ext_seen.append(norm(c))
+            arg = norm(c.args[0]) if c.args else ''
+            handler = [h for h in ast.walk(fn) if isinstance(h, ast.ExceptHandler) and any(x is c for x in ast.walk(h))]
+            if arg == 'native_last_ops':
+                ext_ok = ext_ok and not handler
+            elif arg == 'core.last_run_last_ops':
+                ext_ok = ext_ok and len(handler) == 1 and isinstance(handler[0].body[-1], ast.Raise) and handler[0].body[-1].exc is None
+            else:
+                ext_ok = False
+    rep.check(ext_ok and 'last_ops.extend(native_last_ops)' in ext_seen and len(ext_seen) == len(set(ext_seen)), 'C07.RECORD',
+              '_run_native:extend', str(ext_seen), f'{RUN_REL}:{fn.lineno} _run_native',
+              expected='one extend per exit path: the returned list, or the kept list inside a re-raising handler')
 
 
 def check(rep: Report, repo: Optional[Repo] = None) -> None:
@@ -566,7 +596,7 @@ def check(rep: Report, repo: Optional[Repo] = None) -> None:
     cu = CUnit(repo)
     rep.units = dict(c_functions=len(cu.funcs), analysed=['run_paged_loop_impl[with_ring=0/1]', 'run_flat_loop_impl',
                      'mem_read_word', 'mem_flip_bit', 'mem_write_bit', 'Memory_get_word', 'Memory_set_word',
-                     'mem_decide_storage', 'Memory_run', 'build_run_result', 'flat_is_garbage', 'flat_garbage_check'])
+                     'mem_decide_storage', 'Memory_run', 'last_ops_ring_to_list / build_run_result', 'flat_is_garbage', 'flat_garbage_check'])
     rule_cache(rep, cu)
     rule_route(rep, cu)
     rule_sentinel(rep, cu)
